@@ -907,12 +907,12 @@ pub fn run_c06(ctx: &Ctx) -> i32 {
                 let Ok(text) = std::fs::read_to_string(f) else { continue };
                 for g in oracle::pgn::read_games(&text) {
                     gi += 1;
-                    if g.tags.iter().any(|(k, _)| k == "FEN") || (quick && gi % 6 != 0) {
+                    if g.tags.iter().any(|(k, _)| k == "FEN") || gi % (if quick { 6 } else { 2 }) != 0 {
                         continue;
                     }
                     let mut p = Pos::startpos();
                     for (ply, tok) in g.moves.iter().take(61).enumerate() {
-                        if ply >= 16 && ply % (if quick { 4 } else { 2 }) == 0 {
+                        if ply >= 16 && ply % 4 == 0 {
                             corpus.push(p.clone());
                         }
                         match oracle::san::read_san(&p, tok) {
@@ -924,7 +924,7 @@ pub fn run_c06(ctx: &Ctx) -> i32 {
             }
             // one forcing ply further (every capture and every checking move): positions
             // with pieces en prise and kings in check, where quiescence decides
-            let base: Vec<Pos> = corpus.iter().skip(1301).step_by(if quick { 3 } else { 1 }).cloned().collect();
+            let base: Vec<Pos> = corpus.iter().skip(1301).step_by(if quick { 3 } else { 2 }).cloned().collect();
             for p in &base {
                 for (m, n) in p.legal() {
                     if m.capture != 0 || n.in_check(n.wtm) {
@@ -938,7 +938,7 @@ pub fn run_c06(ctx: &Ctx) -> i32 {
         corpus.retain(|p| p.has_legal_move());
         ctx.add("corpus_soundness_positions", corpus.len() as u64);
         par_for(ctx, &corpus, |p, l| {
-            for d in 1..=(if quick { 2usize } else { 3 }) {
+            for d in 1..=2usize {
                 let cfg = Cfg { seed: seeds[0], depth: Some(d), workers: Some(1), plan: None };
                 let run = run_search(p, &cfg, Some(small_artifact(seeds[0], (4, 256))));
                 l.inc("searches");
@@ -949,7 +949,7 @@ pub fn run_c06(ctx: &Ctx) -> i32 {
                     if eval > i32::from(Evaluation::POS_INF) {
                         // 10000 + 100 * (10 - ply)
                         let ply = 10 - (eval - 10_000) / 100;
-                        if ply >= 1 && ply <= (if quick { 3 } else { 5 }) {
+                        if ply >= 1 && ply <= (if quick { 3 } else { 4 }) {
                             l.inc("corpus_mate_claims");
                             let mv = mv_of(&line[0]);
                             if !mate_preserving_moves(p, ply as u32, &no_draw).contains(&mv) {
@@ -976,7 +976,7 @@ pub fn run_c06(ctx: &Ctx) -> i32 {
         ctx.get("searches") + schedules,
         ctx.get("searches") + schedules,
         exh,
-        &format!("{}{}", "tablebase families (quick: all of KRK strided 1/29 for soundness + every KQK/KRK win in <= 3 plies for completeness; thorough: all of KQK, KRK, KPK, wins in <= 5 plies), both colours as the strong side; soundness: depths 1..2 (thorough 4), every BestMove with evaluation >= POS_INF must be a tablebase win whose first move leads to a tablebase loss for the opponent; completeness: mate in n plies searched at depth n, n+1, n+2 x seeds must end with evaluation >= POS_INF and a mate-preserving first move; Fmate sub-family judged by the exhaustive solver; many-men corpus (adversarial, perft and many-move roots and their successors, and the positions of the recorded games in /repo/book at plies 16..60): every mate claim with a stated distance <= 3 (thorough 5) plies must be a forced mate within that distance by the solver", LOOM_RULE),
+        &format!("{}{}", "tablebase families (quick: all of KRK strided 1/29 for soundness + every KQK/KRK win in <= 3 plies for completeness; thorough: all of KQK, KRK, KPK, wins in <= 5 plies), both colours as the strong side; soundness: depths 1..2 (thorough 4), every BestMove with evaluation >= POS_INF must be a tablebase win whose first move leads to a tablebase loss for the opponent; completeness: mate in n plies searched at depth n, n+1, n+2 x seeds must end with evaluation >= POS_INF and a mate-preserving first move; Fmate sub-family judged by the exhaustive solver; many-men corpus (adversarial, perft and many-move roots and their successors, and the positions of the recorded games in /repo/book at plies 16..60): every mate claim with a stated distance <= 3 (thorough 4) plies must be a forced mate within that distance by the solver", LOOM_RULE),
         ASSUME,
     )
 }
